@@ -398,6 +398,117 @@ def basis_problems(p, rs, cs, x, s):
     return bad, incons
 
 
+def rank_full(M):
+    """is the square Fraction matrix nonsingular?"""
+    n = len(M)
+    M = [list(r) for r in M]
+    for c in range(n):
+        piv = None
+        for r_ in range(c, n):
+            if M[r_][c] != 0:
+                piv = r_
+                break
+        if piv is None:
+            return False
+        M[c], M[piv] = M[piv], M[c]
+        for r_ in range(c + 1, n):
+            if M[r_][c] != 0:
+                f = M[r_][c] / M[c][c]
+                M[r_] = [a - f * b for a, b in zip(M[r_], M[c])]
+    return True
+
+
+def alt_bases(rp, v, r, limit):
+    """other optimal BASES for the same primal-dual point of the reduced LP (degenerate vertices): what a different solver
+    may return.  A variable may be basic iff its multiplier vanishes and must be basic iff it is strictly between its
+    bounds; the basis matrix must be regular.  Returns [(rs, cs)]."""
+    tol = F(1, 10**9)
+    x, s_, y, d = (lpgen.vec_dy(v[k]) for k in ("x", "s", "y", "d"))
+    rs0, cs0 = v["rs"].rstrip(","), v["cs"].rstrip(",")
+    if len(x) != rp.n or len(s_) != rp.m or len(rs0) != rp.m or len(cs0) != rp.n or rp.m == 0:
+        return []
+    sg = -1 if rp.maxi else 1
+    items = [("c", j, x[j], rp.cols[j][1], rp.cols[j][2], sg * d[j], cs0[j]) for j in range(rp.n)] + \
+            [("r", i, s_[i], rp.rows[i][0], rp.rows[i][2], sg * y[i], rs0[i]) for i in range(rp.m)]
+    must, cand, nb = [], [], {}
+    for it in items:
+        kind, idx, val, lo, up, mult, st0 = it
+        at_lo = lo is not None and abs(val - lo) <= tol
+        at_up = up is not None and abs(val - up) <= tol
+        free0 = lo is None and up is None and abs(val) <= tol
+        zero = abs(mult) <= tol
+        if at_lo and at_up:
+            nbst = "F" if lo == up else None
+        elif at_lo:
+            nbst = "L"
+        elif at_up:
+            nbst = "U"
+        elif free0:
+            nbst = "Z"
+        else:
+            nbst = None
+        if nbst is None:
+            if not zero:
+                return []
+            must.append((kind, idx))
+        elif zero:
+            cand.append((kind, idx))
+            nb[(kind, idx)] = nbst
+        else:
+            if (nbst == "L" and mult < 0) or (nbst == "U" and mult > 0):
+                return []
+            nb[(kind, idx)] = nbst
+    need = rp.m - len(must)
+    if need < 0 or need > len(cand):
+        return []
+    out, seen = [], {(rs0, cs0)}
+    for _ in range(8 * limit):
+        if len(out) >= limit:
+            break
+        B = set(must) | set(r.sample(cand, need))
+        cs = "".join("B" if ("c", j) in B else nb.get(("c", j), "?") for j in range(rp.n))
+        rs = "".join("B" if ("r", i) in B else nb.get(("r", i), "?") for i in range(rp.m))
+        if (rs, cs) in seen or "?" in rs + cs:
+            continue
+        seen.add((rs, cs))
+        M = []
+        for i in range(rp.m):
+            row = []
+            for (kind, idx) in sorted(B):
+                row.append(rp.rows[i][1].get(idx, F(0)) if kind == "c" else (F(-1) if idx == i else F(0)))
+            M.append(row)
+        if rank_full(M):
+            out.append((rs, cs))
+    return out
+
+
+def merge_second_pass(runs, out):
+    """attach the UNS / TRACE records of the SIMPX pass to the runs of the first pass"""
+    byid = {ru["id"]: ru for rl in runs.values() for ru in rl}
+    trace = None
+    for l in out.splitlines():
+        t = l.split()
+        if not t:
+            continue
+        if t[0] == "TRACE":
+            ru = byid.get(t[1].rsplit(".", 1)[0])
+            trace = {"head": l, "steps": {}, "order": []}
+            if ru is not None:
+                ru["traces"][t[1]] = trace
+        elif t[0] == "S" and trace is not None:
+            trace["steps"][t[1]] = {"name": t[2], "S": l}
+            trace["order"].append(t[1])
+        elif t[0] == "PRE" and trace is not None:
+            trace["steps"][t[1]]["PRE"] = l
+        elif t[0] == "POST" and trace is not None:
+            trace["steps"][t[1]]["POST"] = l
+        elif t[0] == "UNS":
+            kv = lpgen.parse_kv(l)
+            ru = byid.get(kv["_id"].rsplit(".", 1)[0])
+            if ru is not None:
+                ru["uns"][kv["_id"]] = kv
+
+
 def parse_cpp(out):
     """harness output -> per (lp id) list of runs"""
     runs = {}
@@ -471,6 +582,7 @@ def main():
     model = vlib.build_model("C08")
     S = sc.Session(ck, exe01, checker)
     nlp, nvert, nmax = (150, 4, 7) if ck.tier == "quick" else (3000, 12, 12)
+    nalt = 3 if ck.tier == "quick" else 8
     r = ck.rng
     lps, tagsets = [], []
     for c in lpgen.load_corpus("C08") + [c for c in lpgen.load_corpus("C01") if "agg" in c[0].family]:
@@ -498,6 +610,45 @@ def main():
     if rc != 0:
         done = sum(len(v) for v in runs.values())
         ck.violation("crash", "the simplifier harness crashed (rc=%d) after %d runs: %s" % (rc, done, err[-300:]), {"kind": "crash", "stderr": err[-2000:]})
+    # ---- other optimal bases of the same reduced-LP vertices (what a different solver may return): second harness pass
+    q = ""
+    for k in range(len(lps)):
+        for ru in runs.get(k, []):
+            if ru["red"] is None or not ru["verts"]:
+                continue
+            rp = lpgen.LP(ru["red"]["maxi"], ru["red"]["off"], ru["red"]["cols"], ru["red"]["rows"], "reduced")
+            q += rp.text("r%s" % ru["id"]) + "\n"
+            for vid, v in ru["verts"].items():
+                q += "Q %s opttol %s %s %s %s %s %s %s %s %s\n" % (
+                    vid, qs(sc.TP), qs(sc.TD), qs(sc.TC), qs(sc.TV), vtxt(lpgen.vec_dy(v["x"])), vtxt(lpgen.vec_dy(v["s"])),
+                    vtxt(lpgen.vec_dy(v["y"])), vtxt(lpgen.vec_dy(v["d"])), qs(lpgen.dy2fr(v["obj"])))
+    pre = {cid: {l.split()[1]: l.split()[3] for l in ls if l.startswith("A ")} for cid, ls in S._ask(q, "prejudge").items()} if q else {}
+    txt2 = ""
+    for k, p in enumerate(lps):
+        cmds = ""
+        for ru in runs.get(k, []):
+            if ru["red"] is None:
+                continue
+            rp = lpgen.LP(ru["red"]["maxi"], ru["red"]["off"], ru["red"]["cols"], ru["red"]["rows"], "reduced")
+            na = 0
+            for vid, v in list(ru["verts"].items()):
+                if pre.get("r" + ru["id"], {}).get(vid) != "true" or na >= nalt:
+                    continue
+                for (rs, cs) in alt_bases(rp, v, r, nalt - na):
+                    avid = "a%d" % na
+                    na += 1
+                    full = "%s.%s" % (ru["id"], avid)
+                    ru["verts"][full] = dict(v, rs=rs + ",", cs=cs + ",", cfg="altbasis-of-" + vid, _id=full)
+                    cmds += "SIMPX %s keep=%s seed=%s vid=%s obj=%s x=%s y=%s s=%s r=%s rs=%s cs=%s\n" % (
+                        ru["run"], ru["kv"]["keep"], ru["kv"]["seed"], avid, v["obj"], v["x"], v["y"], v["s"], v["d"], rs, cs)
+                    ck.count("alternative-bases")
+        if cmds:
+            txt2 += p.text(str(k)) + "\n" + cmds
+    if txt2:
+        rc2, out2, err2 = lpgen.run_harness(exe, txt2, "C08-simpx")
+        merge_second_pass(runs, out2)
+        if rc2 != 0:
+            ck.violation("crash", "the simplifier harness crashed (rc=%d) in the alternative-basis pass: %s" % (rc2, err2[-300:]), {"kind": "crash", "stderr": err2[-2000:]})
     # ---- queries to the proved checker: unsimplified solutions on the ORIGINAL LP, vertices on the reduced LP
     q = ""
     for k, p in enumerate(lps):
